@@ -10,7 +10,7 @@ Inductive qrole :=
 Inductive nrole :=
 | NConst (s : string)  (* "RX" *)
 | NSame                (* gate.name *)
-| NPrefix (p : string).(* "R" + gate.name *)
+| NPrefix (p : string).  (* "R" + gate.name *)
 Inductive arole :=
 | ANone                (* no arg_value *)
 | ACopy                (* gate.arg_value, passed on as it is *)
